@@ -179,6 +179,19 @@ def model_check(module, cfg, expect_ok=True, **kw):
 #   * POSTCONDITION that prints "MAXL <n>"
 # (see spec/TraceCommon.tla).  TLC is run depth-first with one worker.
 
+def apalache_check(module, init, inv, length, cinit=None, timeout=900):
+    """Runs apalache-mc on spec/apalache/<module>.tla.  Returns dict(ok, out).  Used only for optional
+    unbounded arguments (inductive invariants) in the thorough tier; never gates a verdict on the code."""
+    outdir = os.path.join(BUILD, "apalache")
+    os.makedirs(outdir, exist_ok=True)
+    cmd = ["apalache-mc", "check", "--out-dir=" + outdir, "--init=" + init, "--inv=" + inv, "--length=%d" % length]
+    if cinit:
+        cmd.append("--cinit=" + cinit)
+    cmd.append(module + ".tla")
+    rc, out = sh(cmd, timeout=timeout, cwd=os.path.join(VERIF, "spec", "apalache"))
+    return dict(ok=(rc == 0 and "EXITCODE: OK" in out), rc=rc, out=out)
+
+
 def validate_batch(module, cfg, records, tag, timeout=600, env=None):
     """records: list of dicts (already including reset records).  Returns (accepted, maxl, out)."""
     tdir = os.path.join(BUILD, "traces")
